@@ -524,11 +524,11 @@ class CParser:
             return tok_type == "ID"
         return tok_type in {"ID", "TYPEID"}
 
-    def _peek_declarator_name_info(self) -> Tuple[Optional[str], bool]:
+    def _peek_declarator_name_info(self) -> Tuple[Optional[str], bool, bool]:
         mark = self._mark()
-        tok_type, saw_paren = self._scan_declarator_name_info()
+        tok_type, saw_paren, after_lparen = self._scan_declarator_name_info()
         self._reset(mark)
-        return tok_type, saw_paren
+        return tok_type, saw_paren, after_lparen
 
     def _parse_any_declarator(
         self, allow_abstract: bool = False, typeid_paren_as_abstract: bool = False
@@ -537,9 +537,13 @@ class CParser:
         #   int foo(int (aa));   -> aa is a name (ID)
         #   typedef char TT;
         #   int bar(int (TT));   -> TT is a type (TYPEID) in parens
-        name_type, saw_paren = self._peek_declarator_name_info()
+        name_type, saw_paren, after_lparen = self._peek_declarator_name_info()
+        # In a parameter declaration a typedef name directly after '(' starts
+        # a parameter list ("int (TT)" is a function taking TT). A typedef
+        # name elsewhere inside parentheses, as in "int (*TT)", can only be
+        # the parameter's name.
         if name_type is None or (
-            typeid_paren_as_abstract and name_type == "TYPEID" and saw_paren
+            typeid_paren_as_abstract and name_type == "TYPEID" and after_lparen
         ):
             if not allow_abstract:
                 tok = self._peek()
@@ -549,7 +553,7 @@ class CParser:
             return decl, False
 
         if name_type == "TYPEID":
-            if typeid_paren_as_abstract:
+            if typeid_paren_as_abstract and not saw_paren:
                 decl = self._parse_typeid_noparen_declarator()
             else:
                 decl = self._parse_typeid_declarator()
@@ -557,7 +561,9 @@ class CParser:
             decl = self._parse_id_declarator()
         return decl, True
 
-    def _scan_declarator_name_info(self) -> Tuple[Optional[str], bool]:
+    def _scan_declarator_name_info(self) -> Tuple[Optional[str], bool, bool]:
+        """Returns (type of the name token or None, whether the name is inside
+        parentheses, whether the name directly follows a '(')."""
         saw_paren = False
         while self._accept("TIMES"):
             while self._peek_type() in _TYPE_QUALIFIER:
@@ -565,21 +571,21 @@ class CParser:
 
         tok = self._peek()
         if tok is None:
-            return None, saw_paren
+            return None, saw_paren, False
         if tok.type in {"ID", "TYPEID"}:
             self._advance()
-            return tok.type, saw_paren
+            return tok.type, saw_paren, False
         if tok.type == "LPAREN":
             saw_paren = True
             self._advance()
-            tok_type, nested_paren = self._scan_declarator_name_info()
-            if nested_paren:
-                saw_paren = True
+            after_lparen = self._peek_type() in {"ID", "TYPEID"}
+            tok_type, _, nested_after_lparen = self._scan_declarator_name_info()
+            after_lparen = after_lparen or nested_after_lparen
             depth = 1
             while True:
                 tok = self._peek()
                 if tok is None:
-                    return None, saw_paren
+                    return None, saw_paren, after_lparen
                 if tok.type == "LPAREN":
                     depth += 1
                 elif tok.type == "RPAREN":
@@ -589,8 +595,8 @@ class CParser:
                         break
                     continue
                 self._advance()
-            return tok_type, saw_paren
-        return None, saw_paren
+            return tok_type, saw_paren, after_lparen
+        return None, saw_paren, False
 
     def _starts_direct_abstract_declarator(self) -> bool:
         return self._peek_type() in {"LPAREN", "LBRACKET"}
@@ -691,7 +697,7 @@ class CParser:
             allow_no_type=True
         )
 
-        name_type, _ = self._peek_declarator_name_info()
+        name_type, _, _ = self._peek_declarator_name_info()
         if name_type != "ID":
             decls = self._parse_decl_body_with_spec(spec, saw_type)
             self._expect("SEMI")
